@@ -37,7 +37,8 @@ inductive PyVal (α : Type) where
   | bool (b : Bool)          -- a subclass of int
   | ip4 (x : IP4)
   | ip6 (x : α)
-  | other                    -- None, bytes, float, list, …
+  | none                     -- None (or any other falsy object that is not a str / int)
+  | other                    -- a truthy object of another type (float, list, …; no str methods)
   deriving Repr
 
 /-- the IPv6 half of `ipaddress` -/
@@ -329,6 +330,77 @@ def Service.fromString {α : Type} (L : IPLib α) (cfg : Cfg) : PyVal α → Exc
       match NetAddr.fromString L cfg (.str addr) with
       | .error e => .error e
       | .ok a => mkService L cfg (.str proto) (.obj a)
+  | _ => .error .typeError
+
+/-! ## `default_func` paths of `from_string` -/
+
+/-- Python truthiness (`x or default`, `if not x`) -/
+def PyVal.truthy {α : Type} : PyVal α → Bool
+  | .str s => !s.isEmpty
+  | .int n => n != 0
+  | .bool b => b
+  | .ip4 _ => true
+  | .ip6 _ => true
+  | .none => false
+  | .other => true
+
+/-- `part or default` -/
+def orDefault {α : Type} (part : Str) (d : PyVal α) : PyVal α :=
+  if part.isEmpty then d else .str part
+
+/-- `if not host or not port: raise ValueError`, then `cls(host, port)` -/
+def checkedMk {α : Type} (L : IPLib α) (cfg : Cfg) (host port : PyVal α) :
+    Except PyExc (NetAddr α) :=
+  if !host.truthy || !port.truthy then .error .valueError else mkNetAddress L cfg host port
+
+/-- `NetAddress.from_string(string, default_func=f)`; `d = some (f(HOST), f(PORT))` -/
+def NetAddr.fromStringD {α : Type} (L : IPLib α) (cfg : Cfg) (d : Option (PyVal α × PyVal α)) :
+    PyVal α → Except PyExc (NetAddr α)
+  | .str s =>
+    match d with
+    | none => mkNetAddress L cfg (.str (splitAddress s).1) (.str (splitAddress s).2)
+    | some (dh, dp) =>
+      checkedMk L cfg (orDefault (splitAddress s).1 dh) (orDefault (splitAddress s).2 dp)
+  | _ => .error .typeError
+
+inductive ServicePart where
+  | protocol | host | port
+  deriving DecidableEq, Repr
+
+/-- a `default_func(protocol, part)` for `Service.from_string`; the protocol argument is `None`
+or a string -/
+abbrev SvcDefaults (α : Type) := Option Str → ServicePart → PyVal α
+
+/-- the first half of `Service.from_string`: which protocol (a Python value: it may come from the
+callback) and which address text -/
+def pickProtocol {α : Type} (g : SvcDefaults α) (s : Str) : Except PyExc (PyVal α × Str) :=
+  match splitOnce schemeSep s with
+  | some (p, a) => .ok (.str p, a)
+  | none =>
+    if (g (some s) .host).truthy && (g (some s) .port).truthy then
+      (if s.isEmpty then .error .valueError else .ok (.str s, []))
+    else if (g none .protocol).truthy then .ok (g none .protocol, s)
+    else .error .valueError
+
+/-- the second half: `partial(default_func, protocol.lower())`, parse the address, construct.
+`protocol.lower()` on a (truthy) non-string raises AttributeError. -/
+def withProtocol {α : Type} (L : IPLib α) (cfg : Cfg) (g : SvcDefaults α) (protocol : PyVal α)
+    (address : Str) : Except PyExc (Service α) :=
+  match protocol with
+  | .str p =>
+    match NetAddr.fromStringD L cfg (some (g (some (lower p)) .host, g (some (lower p)) .port))
+        (.str address) with
+    | .error e => .error e
+    | .ok a => mkService L cfg (.str p) (.obj a)
+  | _ => .error .attributeError
+
+/-- `Service.from_string(string, default_func=g)` -/
+def Service.fromStringD {α : Type} (L : IPLib α) (cfg : Cfg) (g : SvcDefaults α) :
+    PyVal α → Except PyExc (Service α)
+  | .str s =>
+    match pickProtocol g s with
+    | .error e => .error e
+    | .ok (protocol, address) => withProtocol L cfg g protocol address
   | _ => .error .typeError
 
 /-- `Service.__str__` -/
